@@ -83,9 +83,9 @@ func cmdCheck(args []string) {
 		os.Exit(2)
 	}
 	t0 := time.Now()
-	timeout, agree := 10, 1
+	timeout, agree := 20, 1
 	if *tier == "thorough" {
-		timeout, agree = 60, 2
+		timeout, agree = 90, 2
 	}
 	outBase := *verif
 	if *outDir != "" {
